@@ -1,16 +1,19 @@
 import CelmaVerif.Model.ProgArgs.Iter
 import CelmaVerif.Model.Keys
 import CelmaVerif.Model.ArgString
+import CelmaVerif.Model.Regex
 /-
   Model of celma::prog_args::Handler for the modelled fragment
   (src/library/prog_args/handler.cpp, detail/typed_arg_base.cpp, detail/typed_arg.hpp,
   detail/constraint_*.cpp, detail/cardinality_*.cpp, detail/check_*.hpp, groups.cpp).
 
   Fragment: destinations flag (bool), int, std::string, LevelCounter, std::vector<int>
-  (optionally multi-value); value checks lower/upper/range/values/minLength/maxLength;
-  cardinalities none/max/exact/range; argument constraints requires/excludes; handler
-  constraints all-of/any-of/one-of; abbreviations on/off; argument file lines and the
-  environment variable as additional sources; evaluation through Groups.
+  (optionally multi-value); value checks lower/upper/range/values/minLength/maxLength/pattern
+  (`std::regex_match` through Model/Regex.lean); cardinalities none/max/exact/range; argument
+  constraints requires/excludes; handler constraints all-of/any-of/one-of and the handler value
+  constraints differ/disjoint (value_constraint_differ.hpp, value_constraint_disjoint.hpp,
+  common/has_intersection.hpp); abbreviations on/off; argument file lines and the environment
+  variable as additional sources; evaluation through Groups.
   Not modelled: sub-groups, bracket handlers (absent ⇒ '(' and ')' are unknown), inversion
   support (absent ⇒ '!' followed by an argument is refused), value mode `command`, callables,
   formats, other destination types.
@@ -45,6 +48,8 @@ inductive Check where
   | values (vs : List Word) (ignoreCase : Bool)   -- CheckValues, else out_of_range
   | minLength (n : Nat)                           -- CheckMinLength, else underflow_error
   | maxLength (n : Nat)                           -- CheckMaxLength, else overflow_error
+  | pattern (r : Regex.Re)                        -- CheckPattern (the compiled `mRegEx`): `regex_match` on the
+                                                  -- whole value, else out_of_range
   deriving DecidableEq, Repr, Inhabited
 
 inductive CType where
@@ -70,9 +75,13 @@ structure ArgDef where
 
 inductive GKind where
   | allOf | anyOf | oneOf
+  | differ        -- ValueConstraintDiffer (an IHandlerValueConstraint: only an end condition)
+  | disjoint      -- ValueConstraintDisjoint
   deriving DecidableEq, Repr, Inhabited
 
-/-- handler constraint with its (validated, expanded) argument keys -/
+/-- handler constraint with its (validated, expanded) argument keys.  For a value constraint the keys
+    also stand for the handler pointers `mArgHandlers` that `Handler::validValueArguments` stored:
+    each is the own key of a defined argument (see `valueHandlers`). -/
 structure GDef where
   kind : GKind
   keys : List Key
@@ -182,6 +191,7 @@ def Check.run (c : Check) (val : Word) : Res Unit :=
     else throwIf (!vs.contains val) .out_of_range
   | .minLength n => throwIf (val.length < n) .underflow_error
   | .maxLength n => throwIf (val.length > n) .overflow_error
+  | .pattern r => throwIf (!r.matches val) .out_of_range
 
 /-- `TypedArgBase::check`: all checks in the order they were added -/
 def runChecks : List Check → Word → Res Unit
@@ -312,13 +322,133 @@ def GDef.execute (g : GDef) (st : GSt) (k : Key) : Res GSt :=
     | .allOf => .ok { st with remaining := eraseFirstEq k st.remaining }
     | .anyOf => if st.used then .throw .runtime_error else .ok { st with used := true }
     | .oneOf => if st.used then .throw .runtime_error else .ok { st with used := true }
+    | .differ => .ok st          -- `executeConstraint` is empty: all the work is done at the end
+    | .disjoint => .ok st
 
-/-- `checkEndCondition()` -/
-def GDef.endCheck (g : GDef) (st : GSt) : Res Unit :=
+/-! ### value constraints: differ / disjoint -/
+
+/-- `std::string::operator<`: bytes compared as unsigned values, a proper prefix is smaller -/
+def wordLt : Word → Word → Bool
+  | [], [] => false
+  | [], _ :: _ => true
+  | _ :: _, [] => false
+  | a :: as, b :: bs => if a.toNat < b.toNat then true else if b.toNat < a.toNat then false else wordLt as bs
+
+/-- the `int` behind a destination reference (an int argument's destination is an int) -/
+def intOf : DVal → Int
+  | .int n => n
+  | _ => 0
+
+/-- the `std::string` behind a destination reference -/
+def strOf : DVal → Word
+  | .str w => w
+  | _ => []
+
+/-- content of a list destination (empty for a destination of another type) -/
+def vecOf : DVal → List Int
+  | .vec l => l
+  | _ => []
+
+/-- `arg1->compareValue( arg2)`, a virtual call dispatched on the class of `arg1` (`k`: its
+    destination type): `TypedArg< T>::compareValue` for `T` = int / std::string gives `-1`, `0`, `1`
+    through `operator<` in both directions, with `arg2` cast to the same class.  The specialisations
+    for bool, LevelCounter and the containers do not override it: `TypedArgBase::compareValue`
+    throws std::invalid_argument.  (Two different destination types cannot meet:
+    `validValueArguments` refuses them at set-up.) -/
+def compareValue (k : Kind) (a b : DVal) : Res Int :=
+  match k with
+  | .int => .ok (if intOf a < intOf b then -1 else if intOf b < intOf a then 1 else 0)
+  | .str => .ok (if wordLt (strOf a) (strOf b) then -1 else if wordLt (strOf b) (strOf a) then 1 else 0)
+  | _ => .throw .invalid_argument
+
+/-- `std::sort` of a copy of the vector -/
+def insertSorted (x : Int) : List Int → List Int
+  | [] => [x]
+  | y :: ys => if x ≤ y then x :: y :: ys else y :: insertSorted x ys
+
+def sortInts : List Int → List Int
+  | [] => []
+  | x :: xs => insertSorted x (sortInts xs)
+
+/-- `common::hasIntersection( first1, last1, first2, last2)`: the walk of `std::set_intersection`
+    over two SORTED sequences, stopping at the first common value; `fuel` bounds the number of
+    iterations (each one advances one of the two iterators) -/
+def intersectWalk : (fuel : Nat) → List Int → List Int → Bool
+  | 0, _, _ => false
+  | _ + 1, [], _ => false
+  | _ + 1, _, [] => false
+  | fuel + 1, a :: as, b :: bs =>
+    if a < b then intersectWalk fuel as (b :: bs)
+    else if !(b < a) then true
+    else intersectWalk fuel (a :: as) bs
+
+/-- `common::hasIntersectionUnsorted( cont1, cont2)` (after `fix:` — the vector adapter handed the
+    unsorted vectors to the walk): sorted copies are compared -/
+def hasIntersectionUnsorted (l1 l2 : List Int) : Bool :=
+  intersectWalk (l1.length + l2.length + 1) (sortInts l1) (sortInts l2)
+
+/-- `arg1->hasIntersection( arg2)`, dispatched on the class of `arg1`:
+    `TypedArg< ContainerAdapter< vector<int>>>::hasIntersection`; every other destination type:
+    `TypedArgBase::hasIntersection` throws std::invalid_argument -/
+def hasIntersection (k : Kind) (a b : DVal) : Res Bool :=
+  match k with
+  | .vecInt => .ok (hasIntersectionUnsorted (vecOf a) (vecOf b))
+  | _ => .throw .invalid_argument
+
+/-- one stored argument handler of a value constraint: index, definition, state -/
+abbrev VArg := Nat × ArgDef × ArgSt
+
+def VArg.hasValue (a : VArg) : Bool := a.2.2.hasValue a.2.1.kind
+
+/-- index of the argument the stored pointer refers to: the argument whose own key `==` the stored key -/
+def argIndexOf (defs : List ArgDef) (k : Key) : Option Nat := defs.findIdx? (fun d => k.eq d.key)
+
+/-- `mArgHandlers`: the argument handlers stored by `validValueArguments`, in the order of the
+    constraint's argument list.  (A key that is not the key of a defined argument stores nothing: no
+    such constraint object can be built through `addConstraint`.) -/
+def valueHandlers (defs : List ArgDef) (sts : List ArgSt) (keys : List Key) : List VArg :=
+  keys.filterMap (fun k =>
+    match argIndexOf defs k with
+    | some i => match defs[i]? with
+      | some d => some (i, d, sts.getD i default)
+      | none => none
+    | none => none)
+
+/-- inner loop of `ValueConstraintDiffer::checkEndCondition` -/
+def differInner (a1 : VArg) : List VArg → Res Unit
+  | [] => pure ()
+  | a2 :: rest => do
+    if a1.1 != a2.1 && a2.hasValue then
+      let c ← compareValue a1.2.1.kind a1.2.2.dest a2.2.2.dest
+      throwIf (c == 0) .runtime_error
+    differInner a1 rest
+
+/-- outer loop of `ValueConstraintDiffer::checkEndCondition` -/
+def differOuter (all : List VArg) : List VArg → Res Unit
+  | [] => pure ()
+  | a1 :: rest => do
+    if a1.hasValue then differInner a1 all
+    differOuter all rest
+
+/-- `ValueConstraintDisjoint::checkEndCondition`: `mArgHandlers[ 0]` and `[ 1]`.  The constraint
+    object holds exactly two handlers (fewer: `validValueArguments` throws; a third:
+    `storeArgumentHandler` throws), so the last branch stands for no constructible object. -/
+def disjointCheck : List VArg → Res Unit
+  | a1 :: a2 :: _ => do
+    if !a1.hasValue || !a2.hasValue then pure ()
+    else do
+      let c ← hasIntersection a1.2.1.kind a1.2.2.dest a2.2.2.dest
+      throwIf c .runtime_error
+  | _ => pure ()
+
+/-- `checkEndCondition()`; the value constraints read the destinations of their arguments -/
+def GDef.endCheck (defs : List ArgDef) (sts : List ArgSt) (g : GDef) (st : GSt) : Res Unit :=
   match g.kind with
   | .allOf => if st.remaining.isEmpty then pure () else .throw .runtime_error
   | .anyOf => pure ()
   | .oneOf => if st.used then pure () else .throw .runtime_error
+  | .differ => let hs := valueHandlers defs sts g.keys; differOuter hs hs
+  | .disjoint => disjointCheck (valueHandlers defs sts g.keys)
 
 def executeGlobals : List GDef → List GSt → Key → Res (List GSt)
   | g :: gs, s :: ss, k => do
@@ -327,8 +457,8 @@ def executeGlobals : List GDef → List GSt → Key → Res (List GSt)
     pure (s' :: rest)
   | _, _, _ => .ok []
 
-def checkGlobals : List GDef → List GSt → Res Unit
-  | g :: gs, s :: ss => do g.endCheck s; checkGlobals gs ss
+def checkGlobals (defs : List ArgDef) (sts : List ArgSt) : List GDef → List GSt → Res Unit
+  | g :: gs, s :: ss => do g.endCheck defs sts s; checkGlobals defs sts gs ss
   | _, _ => pure ()
 
 /-! ## the handler -/
@@ -477,7 +607,7 @@ def endChecks (cfg : Cfg) (h : HState) : Res HState := do
   let h := { h with lastArg := none }
   checkMandatoryCardinality cfg.args h.args
   pendingCheckRequired h.pending
-  checkGlobals cfg.globals h.globals
+  checkGlobals cfg.args h.args cfg.globals h.globals
   pure h
 
 /-- `Handler::evalArguments( argc, argv)` -/
